@@ -252,6 +252,18 @@ static void multiply_block(uint64_t idx, void *ctx)
                 i = 3; break;
             }
         }
+        /* the result object may be one of the operands (or both): same answer as into a separate object */
+        if (ret >= 0) for (int al = 1; al <= 3; al++) {
+            pixman_transform_t cl = l, cr = r;
+            void *a2[3] = { al == 2 ? (void *)&cr : (void *)&cl, &cl, al == 3 ? (void *)&cl : (void *)&cr };
+            if (al == 3 && memcmp(&l, &r, sizeof l)) continue;
+            int ret2 = c11_guard(thunk_mul, a2);
+            const pixman_transform_t *res = al == 2 ? &cr : &cl;
+            if (ret2 < 0) c11_fail("c11-multiply-abort", "pixman_transform_multiply aborts with dst aliasing an operand: %s", c11_abort_msg);
+            else if ((ret2 != 0) != (ret != 0) || (ret && memcmp(res, &out, sizeof out)))
+                c11_fail("c11-multiply-alias", "multiply with dst == %s returned %d with %s, into a separate object %d with %s; l=%s r=%s", al == 1 ? "l" : al == 2 ? "r" : "l == r", ret2,
+                         mat_str(res, ob, sizeof ob), ret, mat_str(&out, q0 + 0 > q0 ? lb : lb, sizeof lb), "", mat_str(&r, rb, sizeof rb));
+        }
         vf_outcome(ret > 0 ? mat_hash(&out, 11) : (uint64_t)(ret + 5));
         if (ret > 0 && inx && x == 3 % s->n && y == 5 % s->n && z == 1 && idx % 211 == 7 && c11_want_sample(1))
             vf_sample("multiply l=%s r=%s -> TRUE %s; [0][0] admissible [%s,%s]", mat_str(&l, lb, sizeof lb), mat_str(&r, rb, sizeof rb), mat_str(&out, ob, sizeof ob),
